@@ -54,8 +54,7 @@ SAMPLER = [algo("Sampler.tla", "Sampler_q.cfg", workers=6, heap="6g"),
            algo("Sampler.tla", "Sampler_cal_ubound_zero_reflect.cfg", workers=2, heap="3g", expect="violation"),
            algo("Sampler.tla", "Sampler_cal_no_zero_retry.cfg", workers=2, heap="3g", expect="violation"),
            algo("Sampler.tla", "Sampler_cal_native_floor.cfg", workers=2, heap="3g", expect="violation"),
-           algo("Sampler.tla", "Sampler_t1.cfg", workers=14, heap="12g", tiers=T),
-           algo("Sampler.tla", "Sampler_t2.cfg", workers=14, heap="12g", tiers=T)]
+           algo("Sampler.tla", "Sampler_t1.cfg", workers=14, heap="12g", tiers=T)]
 
 PROPS = {
     "C01": {
